@@ -232,13 +232,21 @@ def load_known(prop):
 # --------------------------------------------------------------------------------------------
 # context
 # --------------------------------------------------------------------------------------------
+class _Broken(list):
+    def __bool__(self):
+        return len(self) > 0 or os.environ.get("VERIF_FORCE_SEARCH") == "1"
+
+
 class Ctx:
     def __init__(self, prop, tier, seed):
         self.prop, self.tier, self.seed = prop, tier, seed
         self.rng = random.Random(f"{prop}-{seed}")
         self.t0 = time.time()
         self.obligations = []  # (name, ok, detail)
-        self.broken = []  # descriptions of broken obligations / correspondences
+        # descriptions of broken obligations / correspondences.  VERIF_FORCE_SEARCH=1 (self-test of the machinery on the
+        # unchanged tree): the list reads as non-empty, so every check runs its failing-input search, but nothing is
+        # reported for it — the searches themselves must then stay quiet.
+        self.broken = _Broken()
         self.fail_inputs = []  # concrete failing inputs on the real code (not known)
         self.known_lines = []  # KNOWN-FINDING lines
         self.known_entries = load_known(prop)
@@ -442,7 +450,7 @@ class Ctx:
             rp = self.write_replay({"property": self.prop, "replay_kind": "failing-input", "seed": self.seed,
                                     "tier": self.tier, **fi})
             viol_lines.append(f"VIOLATION property={self.prop} replay={rp}")
-        if not self.fail_inputs and self.broken:
+        if not self.fail_inputs and len(self.broken):
             rp = self.write_replay({"property": self.prop, "replay_kind": "broken-obligation", "seed": self.seed,
                                     "tier": self.tier, "broken": self.broken})
             viol_lines.append(f"VIOLATION property={self.prop} replay={rp} no-failing-input-found")
